@@ -1,8 +1,20 @@
 ------------------------------ MODULE Expr ------------------------------
-EXTENDS Integers, Sequences, TLC
-\* tokens: <<"n", v>> | <<"+">> | <<"-">> | <<"*">> | <<"/">> | <<"%">> | <<"(">> | <<")">>
-TruncDiv(a, b) == LET q == (IF a < 0 THEN -a ELSE a) \div (IF b < 0 THEN -b ELSE b)
-                  IN IF (a < 0) # (b < 0) THEN -q ELSE q
+(***************************************************************************)
+(* The operand expression language of Redcode ON TOKEN SEQUENCES (EQU      *)
+(* substitution is textual, so an AST semantics would be wrong for          *)
+(* `x equ 1+2 ... x*3`).                                                    *)
+(*   expr    := term (('+'|'-') term)*                                      *)
+(*   term    := unary (('*'|'/'|'%') unary)*                                *)
+(*   unary   := ('+'|'-')* primary                                          *)
+(*   primary := NUM | '(' expr ')'                                          *)
+(* Tokens: <<"n", v>> | <<"+">> <<"-">> <<"*">> <<"/">> <<"%">> <<"(">> <<")">>. *)
+(* Exact integer arithmetic (TLC integers; generators keep every           *)
+(* intermediate value below 2^31), '/' and '%' truncate toward zero,        *)
+(* division by zero is an error.  Eval returns [ok, v].                     *)
+(***************************************************************************)
+EXTENDS Integers, Sequences
+Abs(a) == IF a < 0 THEN -a ELSE a
+TruncDiv(a, b) == LET q == Abs(a) \div Abs(b) IN IF (a < 0) # (b < 0) THEN -q ELSE q
 TruncRem(a, b) == a - b * TruncDiv(a, b)
 Res(v, p, e) == [v |-> v, p |-> p, e |-> e]     \* value, next position, error flag
 RECURSIVE PExpr(_, _), PTerm(_, _), PUnary(_, _), PPrim(_, _), ExprLoop(_, _), TermLoop(_, _)
@@ -29,18 +41,31 @@ ExprLoop(t, l) ==
        IF r.e THEN Res(0, r.p, TRUE)
        ELSE ExprLoop(t, Res(IF o = "+" THEN l.v + r.v ELSE l.v - r.v, r.p, FALSE))
 PExpr(t, i) == ExprLoop(t, PTerm(t, i))
-Eval(t) == LET r == PExpr(t, 1) IN IF r.e \/ r.p # Len(t) + 1 THEN "error" ELSE r.v
+Eval(t) == LET r == PExpr(t, 1) IN IF r.e \/ r.p # Len(t) + 1 THEN [ok |-> FALSE, v |-> 0] ELSE [ok |-> TRUE, v |-> r.v]
 
-n(v) == <<"n", v>>
-Tests == << <<n(1), <<"-">>, <<"-">>, <<"-">>, n(5)>>,            \* 1 - - - 5 = -4
-            <<n(5), <<"*">>, <<"-">>, <<"-">>, n(1)>>,            \* 5*-(-1) = 5
-            <<<<"-">>, <<"-">>, <<"-">>, n(5)>>,                   \* -5
-            <<n(1), <<"+">>, n(2), <<"*">>, n(3)>>,                \* 7
-            <<<<"(">>, n(1), <<"+">>, n(2), <<")">>, <<"*">>, n(3)>>, \* 9
-            <<<<"-">>, n(7), <<"/">>, n(2)>>, <<<<"-">>, n(7), <<"%">>, n(3)>>, \* -3, -1
-            <<n(7), <<"/">>, n(0)>>, <<n(10), <<"-">>, n(2), <<"-">>, n(3)>>, <<n(100), <<"/">>, n(5), <<"/">>, n(2)>> >>
-ASSUME PrintT([i \in 1..Len(Tests) |-> Eval(Tests[i])])
-VARIABLE x
-Init == x = 0
-Next == UNCHANGED x
+\* value reduced into [0, M)
+ModM(v, M) == ((v % M) + M) % M
+
+(* A second, independent semantics on abstract syntax trees, with a renderer; MC_Expr checks   *)
+(* Eval(Render(ast)) = EvalAst(ast) exhaustively in small scope, so the oracle itself is checked. *)
+(* ast: <<"lit", v>> | <<"neg", a>> | <<"pos", a>> | <<"par", a>> | <<op, a, b>>                 *)
+RECURSIVE EvalAst(_)
+EvalAst(a) ==
+  CASE a[1] = "lit" -> [ok |-> TRUE, v |-> a[2]]
+    [] a[1] = "neg" -> LET x == EvalAst(a[2]) IN [ok |-> x.ok, v |-> -x.v]
+    [] a[1] \in {"pos", "par"} -> EvalAst(a[2])
+    [] OTHER -> LET x == EvalAst(a[2])  y == EvalAst(a[3]) IN
+                IF ~x.ok \/ ~y.ok \/ (a[1] \in {"/", "%"} /\ y.v = 0) THEN [ok |-> FALSE, v |-> 0]
+                ELSE [ok |-> TRUE, v |-> CASE a[1] = "+" -> x.v + y.v [] a[1] = "-" -> x.v - y.v [] a[1] = "*" -> x.v * y.v
+                                            [] a[1] = "/" -> TruncDiv(x.v, y.v) [] a[1] = "%" -> TruncRem(x.v, y.v)]
+Prec(a) == CASE a[1] \in {"+", "-"} -> 1 [] a[1] \in {"*", "/", "%"} -> 2 [] a[1] \in {"neg", "pos"} -> 3 [] OTHER -> 4
+RECURSIVE Render(_)
+Paren(a, need) == IF need THEN << <<"(">> >> \o Render(a) \o << <<")">> >> ELSE Render(a)
+Render(a) ==
+  CASE a[1] = "lit" -> IF a[2] < 0 THEN << <<"-">>, <<"n", -a[2]>> >> ELSE << <<"n", a[2]>> >>
+    [] a[1] = "neg" -> << <<"-">> >> \o Paren(a[2], Prec(a[2]) < 3)
+    [] a[1] = "pos" -> << <<"+">> >> \o Paren(a[2], Prec(a[2]) < 3)
+    [] a[1] = "par" -> Paren(a[2], TRUE)
+    [] OTHER -> \* left associative: the right operand needs parentheses at equal precedence
+                Paren(a[2], Prec(a[2]) < Prec(a)) \o << <<a[1]>> >> \o Paren(a[3], Prec(a[3]) <= Prec(a))
 =============================================================================
